@@ -2,7 +2,7 @@
 import ast
 import re
 
-from sa.astutil import (reaching_value, guard_atoms, norm, guards_of, walk_no_nested, always_exits, parent, enclosing, stmt_of,
+from sa.astutil import (reaching_value, inline_locals, guard_atoms, norm, guards_of, walk_no_nested, always_exits, parent, enclosing, stmt_of,
                         preceding_stmts, body_walk, qualname)
 from sa.errors import AnalysisError
 from sa.minieval import Evaluator, Obj
@@ -43,6 +43,19 @@ NON_NODE_FIELDS = {'ctx', 'op', 'ops', 'attr', 'id', 'arg', 'n', 's', 'kind', 't
 
 
 # ---------------------------------------------------------------------------
+def _iterated(it):
+    """the sequences a for loop runs over, in order: `a`, `[*a, *b]`, `a + b`, `chain(a, b)`"""
+    if isinstance(it, (ast.List, ast.Tuple)) and it.elts and all(isinstance(e, ast.Starred) for e in it.elts):
+        return [x for e in it.elts for x in _iterated(e.value)]
+    if isinstance(it, ast.BinOp) and isinstance(it.op, ast.Add):
+        return _iterated(it.left) + _iterated(it.right)
+    if isinstance(it, ast.Call) and norm(it.func) in ('chain', 'itertools.chain') and not it.keywords:
+        return [x for a in it.args for x in _iterated(a)]
+    if isinstance(it, ast.Call) and norm(it.func) == 'list' and len(it.args) == 1:
+        return _iterated(it.args[0])
+    return [norm(it)]
+
+
 def rule_visitor(repo):
     r = RuleResult('R-C02-visitor', "reads and writes are detected wherever they occur in an update block")
     m = repo.mod(ASTH)
@@ -71,7 +84,7 @@ def rule_visitor(repo):
                 if isinstance(c, ast.Call) and norm(c.func) in ('self.visit', 'self._get_full_name', 'self.generic_visit') \
                         and c.args and norm(c.args[0]) in (tgt, node) and not (norm(c.args[0]) == node and norm(c.func) == 'self._get_full_name'):
                     covered = True
-                if isinstance(c, ast.For) and norm(c.iter) == tgt:
+                if isinstance(c, ast.For) and tgt in _iterated(c.iter):
                     lv = norm(c.target)
                     if any(isinstance(x, ast.Call) and norm(x.func) == 'self.visit' and x.args and
                            norm(x.args[0]) in (lv, f"{lv}.value") for x in ast.walk(c)) and \
@@ -92,7 +105,7 @@ def rule_visitor(repo):
                         for c in ast.walk(st):
                             if isinstance(c, ast.Call) and norm(c.func) in ('self.visit', 'self.generic_visit') and c.args and norm(c.args[0]) in (tgt, node):
                                 on_unresolved = True
-                            if isinstance(c, ast.For) and norm(c.iter) == tgt:
+                            if isinstance(c, ast.For) and tgt in _iterated(c.iter):
                                 on_unresolved = True
                     if not on_unresolved:
                         r.bad(m, f"DetectReadsWritesCalls.{name}", f"{name}: child `{fld}` when the name does not resolve",
@@ -442,11 +455,13 @@ def rule_pairing(repo):
                   "map (writer runs first)", c.lineno)
             continue
         # guards: exactly {first not in update_ff, first != second}
-        gs = [g for g in guards_of(c) if g.kind == 'if' and any(x is g.node for x in ast.walk(outer))]
-        texts = sorted((norm(g.test), g.polarity) for g in gs)
-        allowed = {(f"{first.id} not in update_ff", True), (f"{first.id} != {second.id}", True)}
+        texts = sorted(guard_atoms(c, stop=outer, canonical=True))
+        required = [{(f"{first.id} not in update_ff", True)},
+                    {(f"{first.id} != {second.id}", True), (f"{second.id} != {first.id}", True),
+                     (f"{first.id} is not {second.id}", True), (f"{second.id} is not {first.id}", True)}]
+        allowed = set().union(*required)
         extra = [t for t in texts if t not in allowed]
-        missing = [t for t in allowed if t not in texts]
+        missing = [sorted(g)[0] for g in required if not (g & set(texts))]
         if extra:
             r.bad(m, FN, cons, f"pairs are dropped under an extra condition `{extra[0][0]}`: some reader may run before its writer", c.lineno)
             continue
@@ -1535,35 +1550,38 @@ def rule_openloop_vertices(repo):
     m = repo.mod(OPENLOOP)
     f = m.get_func('OpenLoopCLPass.schedule_with_top_level_callee')
     fq = 'OpenLoopCLPass.schedule_with_top_level_callee'
-    # the map that translates constraint operands: `if xx in M: xx = M[xx]`
+    R = lambda e, at: norm(inline_locals(e, at))
+    # the maps that translate constraint operands: `if xx in M: xx = M[xx]` or `xx = M.get(xx, xx)`
     maps = set()
     for n in ast.walk(f):
         if isinstance(n, ast.If) and isinstance(n.test, ast.Compare) and len(n.test.ops) == 1 and isinstance(n.test.ops[0], ast.In) \
                 and len(n.body) == 1 and isinstance(n.body[0], ast.Assign) and isinstance(n.body[0].value, ast.Subscript) \
                 and norm(n.body[0].value.value) == norm(n.test.comparators[0]) and norm(n.body[0].targets[0]) == norm(n.test.left):
             maps.add(norm(n.test.comparators[0]))
-    all_verts = {norm(c.args[0]) for c in ast.walk(f) if isinstance(c, ast.Call) and norm(c.func) == 'V.add' and c.args}
+        if isinstance(n, ast.Assign) and isinstance(n.value, ast.Call) and isinstance(n.value.func, ast.Attribute) and n.value.func.attr == 'get' \
+                and len(n.value.args) == 2 and len(n.targets) == 1 and isinstance(n.targets[0], ast.Name) \
+                and [norm(a) for a in n.value.args] == [n.targets[0].id] * 2:
+            maps.add(norm(n.value.func.value))
+    stores = [n for n in ast.walk(f) if isinstance(n, ast.Assign) and len(n.targets) == 1 and isinstance(n.targets[0], ast.Subscript)]
+    vadds = [c for c in ast.walk(f) if isinstance(c, ast.Call) and norm(c.func) == 'V.add' and c.args]
+    all_verts = {R(c.args[0], c) for c in vadds}
     raw_maps = set()
     for mp in maps:
         # keep the map keyed by raw functions: its keys are not themselves vertex expressions
-        keys = []
-        for n in ast.walk(f):
-            if isinstance(n, ast.Assign) and isinstance(n.targets[0], ast.Subscript) and norm(n.targets[0].value) == mp:
-                k = n.targets[0].slice
-                kv = reaching_value(k.id, n) if isinstance(k, ast.Name) else k
-                keys.append(norm(kv) if kv is not None else norm(k))
+        keys = [R(n.targets[0].slice, n) for n in stores if norm(n.targets[0].value) == mp]
         if keys and not any(k in all_verts for k in keys):
             raw_maps.add(mp)
     if len(raw_maps) != 1:
         raise AnalysisError(f"{fq}: the raw-function -> callee-port map was not identified ({sorted(maps)})")
     M = next(iter(raw_maps))
-    loops = [n for n in f.body if isinstance(n, ast.For) and any(isinstance(c, ast.Call) and norm(c.func) == 'V.add' for c in ast.walk(n))]
+    loops = [n for n in f.body if isinstance(n, ast.For) and any(any(x is c for x in ast.walk(n)) for c in vadds)]
     if len(loops) < 2:
         raise AnalysisError(f"{fq}: the loops that create the callee vertices were not found")
     for lp in loops:
-        verts = [norm(c.args[0]) for c in ast.walk(lp) if isinstance(c, ast.Call) and norm(c.func) == 'V.add' and c.args]
-        mapped = {norm(n.value) for n in ast.walk(lp) if isinstance(n, ast.Assign) and isinstance(n.targets[0], ast.Subscript)
-                  and norm(n.targets[0].value) == M}
+        inside = lambda n: any(x is n for x in ast.walk(lp))
+        verts = [R(c.args[0], c) for c in vadds if inside(c)]
+        entries = [(R(n.targets[0].slice, n), R(n.value, n), n) for n in stores if inside(n) and norm(n.targets[0].value) == M]
+        mapped = {v for _, v, _ in entries}
         for v in verts:
             ok = v in mapped
             (r.ok if ok else r.bad)(m, fq, f"vertex `{v}` (loop over {norm(lp.iter)}) is a value of {M}",
@@ -1572,13 +1590,9 @@ def rule_openloop_vertices(repo):
                                                      f"evaluated before the block that computes it", lp.lineno]))
             if ok:
                 # the key under which it is entered is the raw function of the same port
-                for n in ast.walk(lp):
-                    if isinstance(n, ast.Assign) and isinstance(n.targets[0], ast.Subscript) and norm(n.targets[0].value) == M and norm(n.value) == v:
-                        k = n.targets[0].slice
-                        kv = reaching_value(k.id, n) if isinstance(k, ast.Name) else k
-                        good = kv is not None and norm(kv) in (f"get_raw_method({v})", f"{v}.method")
-                        if not good:
-                            r.bad(m, fq, f"{M}[{norm(k)}] = {v}", f"the key `{norm(kv) if kv is not None else norm(k)}` is not the raw function of `{v}`", n.lineno)
+                for k, val, n in entries:
+                    if val == v and k not in (f"get_raw_method({v})", f"{v}.method"):
+                        r.bad(m, fq, f"{M}[{norm(n.targets[0].slice)}] = {v}", f"the key `{k}` is not the raw function of `{v}`", n.lineno)
     r.require_floor(3)
     return r
 
@@ -1801,6 +1815,16 @@ MUTANTS = [
 ]
 
 EQUIV = [
+    _m('visit-for-one-loop-over-body-and-orelse', ASTH, "    for stmt in node.body:\n      self.visit( stmt )\n    for stmt in node.orelse:\n      self.visit( stmt )\n",
+       "    for stmt in [ *node.body, *node.orelse ]:\n      self.visit( stmt )\n"),
+    _m('ff-writer-exemption-as-guard-clause', GENDAG, "          if wr_blk not in update_ff:\n            for rd_blk in rd_blks:\n              if wr_blk != rd_blk:\n                # if rd_blk not in update_ff:\n                impl_constraints.add( (wr_blk, rd_blk) ) # wr < rd default\n                constraint_objs[ (wr_blk, rd_blk) ].add( obj )\n",
+       "          if wr_blk in update_ff:\n            continue\n          for rd_blk in rd_blks:\n            if rd_blk != wr_blk:\n              impl_constraints.add( (wr_blk, rd_blk) ) # wr < rd default\n              constraint_objs[ (wr_blk, rd_blk) ].add( obj )\n"),
+    dict(name='openloop-ports-in-locals-and-get-translation', rule=None, edits=[
+        dict(file=OPENLOOP, old="      V.add( x.method )\n      V.add( x.rdy )\n      E.add( (x.rdy, x.method) )\n\n      method_guard_mapping[x.method] = x.rdy\n      guard_method_mapping[x.rdy] = x.method\n      m = get_raw_method( x.method )\n      r = get_raw_method( x.rdy )\n",
+             new="      method_port = x.method\n      rdy_port    = x.rdy\n      V.add( method_port )\n      V.add( rdy_port )\n      E.add( (rdy_port, method_port) )\n\n      method_guard_mapping[method_port] = rdy_port\n      guard_method_mapping[rdy_port] = method_port\n      m = get_raw_method( method_port )\n      r = get_raw_method( rdy_port )\n", count=1),
+        dict(file=OPENLOOP, old="      method_callee_mapping[m] = x.method\n      method_callee_mapping[r] = x.rdy\n", new="      method_callee_mapping[m] = method_port\n      method_callee_mapping[r] = rdy_port\n", count=1),
+        dict(file=OPENLOOP, old="      if xx in method_callee_mapping:\n        xx = method_callee_mapping[ xx ]\n\n      if yy in method_callee_mapping:\n        yy = method_callee_mapping[ yy ]\n",
+             new="      xx = method_callee_mapping.get( xx, xx )\n      yy = method_callee_mapping.get( yy, yy )\n", count=1)]),
     dict(name='callee-constraints-set-alias', rule=None, edits=[
         dict(file=GENDAG, old="    top._dag.top_level_callee_constraints = set()\n", new="    callee_constraints = top._dag.top_level_callee_constraints = set()\n", count=1),
         dict(file=GENDAG, old="top._dag.top_level_callee_constraints.add(", new="callee_constraints.add(", count=4)]),
